@@ -990,7 +990,7 @@ Hypothesis Hsst : rows_structure t sn FIE srows sst.
 Definition field_row_ok (row : srow) : Prop :=
   exists fr, row_ref t row = Some fr /\
     match fr with
-    | SLeaf i => True
+    | SLeaf i => match i_dt i with Some b => base (Some b) = true \/ b = unbs "varies" | None => True end
     | SSeqDt i => exists D rows, i_dt i = Some D /\ slookup D (t_structs t) = Some rows /\ good_struct D rows
     | _ => False
     end.
